@@ -108,15 +108,18 @@ func verifyOne(eng *Engine, key string, opts solveOpts) *funcResult {
 	sort.Strings(fr.Assumptions)
 	// vacuity guard: the entry assumptions must be satisfiable
 	vac := &Obligation{Name: key + "/vacuity", Clause: key + "/vacuity", Kind: "vacuity", Func: key, Goal: "false", PC: vc.entryPC}
-	all := append([]*Obligation{vac}, vc.obls...)
-	discharge(vc, all, opts)
+	vopts := opts
+	vopts.quickT = 1
+	vopts.noSecond = true
+	discharge(vc, []*Obligation{vac}, vopts)
+	discharge(vc, vc.obls, opts)
 	switch vac.Result {
 	case "sat":
 		fr.Vacuity = "ok"
 	case "unsat":
 		fr.Vacuity = "vacuous"
 	default:
-		fr.Vacuity = "unknown"
+		fr.Vacuity = "not-refuted"
 	}
 	fr.Obls = vc.obls
 	fr.Secs = time.Since(t0).Seconds()
